@@ -171,6 +171,7 @@ func (se *SessionExecutor) handleStmtExecute(reqCtx *util.RequestContext, data [
 
 	var executeSQL string
 	var err error
+	defer s.ResetParams()
 	if paramNum > 0 {
 		nullBitmapLen := (s.paramCount + 7) >> 3
 		if len(data) < (pos + nullBitmapLen + 1) {
@@ -206,7 +207,6 @@ func (se *SessionExecutor) handleStmtExecute(reqCtx *util.RequestContext, data [
 	} else {
 		executeSQL = s.sql
 	}
-	defer s.ResetParams()
 	// execute sql using ComQuery
 	return se.handleQuery(reqCtx, executeSQL)
 }
